@@ -2,6 +2,7 @@ package checks
 
 import (
 	"math/rand"
+	"time"
 
 	"verifharness/internal/core"
 	"verifharness/internal/gen"
@@ -103,6 +104,66 @@ func randMixedProblem(r *rand.Rand, maxN int) (front string, n int, strict bool,
 	default:
 		front, n, cons = randConstraintProblem(r, maxN, 5, 3)
 		return front, maxVarOfCons(cons), false, cons
+	}
+}
+
+// histDesigns: every call history of the SolverAPI machine (spec/SolverAPI.tla) up to its depth is
+// emitted by TLC; C09 replays the ones without Assume, C10 the ones without AppendClause.
+func histDesigns(keep string) []core.Design {
+	toCases := func(env *core.Env, emitted []core.Case) []core.Case {
+		var res []core.Case
+		for _, e := range emitted {
+			var ev []gen.M
+			ok, interesting := true, false
+			for _, o := range e["hist"].([]any) {
+				om := o.(map[string]any)
+				switch om["op"] {
+				case "solve":
+					ev = append(ev, gen.Op("solve"))
+				case "append":
+					if keep != "append" {
+						ok = false
+					}
+					interesting = true
+					var cl []int
+					for _, l := range om["c"].([]any) {
+						cl = append(cl, int(l.(float64)))
+					}
+					ev = append(ev, gen.M{"op": "append", "c": gen.Clause(cl...)})
+				case "assume":
+					if keep != "assume" {
+						ok = false
+					}
+					interesting = true
+					ls := []int{}
+					for _, l := range om["ls"].([]any) {
+						ls = append(ls, int(l.(float64)))
+					}
+					ev = append(ev, gen.M{"op": "assume", "ls": ls})
+				}
+			}
+			if !ok || !interesting {
+				continue
+			}
+			ev = append(ev, gen.Op("solve"))
+			var clauses [][]int
+			for _, c := range e["base"].([]any) {
+				var cl []int
+				for _, l := range c.([]any) {
+					cl = append(cl, int(l.(float64)))
+				}
+				clauses = append(clauses, cl)
+			}
+			res = append(res, gen.APICase("slicenb", 2, true, gen.ClauseCtors(clauses), false, nil, gen.Cfg(false, 0, 0, false, false, true), ev))
+		}
+		if env.Quick() && len(res) > 6000 { // quick tier: a seeded sample of the enumerated histories
+			env.Rand.Shuffle(len(res), func(i, j int) { res[i], res[j] = res[j], res[i] })
+			res = res[:6000]
+		}
+		return res
+	}
+	return []core.Design{
+		{Name: "hist", Module: "SolverAPI", Cfg: "SolverAPI_quick.cfg", ToCases: toCases, Timeout: 20 * time.Minute, Workers: 8},
 	}
 }
 
@@ -291,6 +352,7 @@ func init() {
 	// C09 — incremental solving
 	register(&core.Check{
 		ID:          "C09",
+		Designs:     histDesigns("append"),
 		TraceModule: "APITrace",
 		Cases: func(env *core.Env) []core.Case {
 			r := env.Rand
@@ -360,6 +422,7 @@ func init() {
 	// C10 — assumptions
 	register(&core.Check{
 		ID:          "C10",
+		Designs:     histDesigns("assume"),
 		TraceModule: "APITrace",
 		Cases: func(env *core.Env) []core.Case {
 			r := env.Rand
